@@ -31,7 +31,8 @@ type groupCase struct {
 	keys      []string
 	groupNull bool
 	filled    bool
-	optForm   int // how the options are spelled: order of Columns/Null, explicit Null(false), explicit empty Columns()
+	optForm   int  // how the options are spelled: order of Columns/Null, explicit Null(false), explicit empty Columns()
+	decoyNull bool // Null(!groupNull) is passed before Null(groupNull)
 }
 
 func (g groupCase) String() string {
@@ -61,7 +62,7 @@ func genGroupCase(t *rapid.T, withID bool) groupCase {
 		}}
 	} else {
 		base = hx.GenTable(t, hx.TableOpt{MinCols: 1, MaxCols: 6, AllowDerived: true})
-		// now and then every string cell is long (40 bytes more: equal cells stay equal, different ones different), for code
+		// now and then every string cell is long (70 bytes more: equal cells stay equal, different ones different), for code
 		// that treats long keys differently (hashes kept, compared in words)
 		if rapid.IntRange(0, 5).Draw(t, "longstrings") == 0 {
 			for ci, c := range base.Cols {
@@ -71,7 +72,7 @@ func genGroupCase(t *rapid.T, withID bool) groupCase {
 				cells := make([]*string, len(c.S))
 				for r, p := range c.S {
 					if p != nil {
-						cells[r] = hx.Sp(*p + "-0123456789abcdef-0123456789abcdef-012345")
+						cells[r] = hx.Sp(*p + "-0123456789abcdef-0123456789abcdef-0123456789abcdef-0123456789abcdef-01")
 					}
 				}
 				base.Cols[ci].S = cells
@@ -222,7 +223,7 @@ func genGroupCase(t *rapid.T, withID bool) groupCase {
 		d.Route = append(d.Route, fmt.Sprintf("grouped before on %q and %q", prior, rot))
 	}
 	return groupCase{d: d, in: in, keys: append([]string(nil), perm[:nk]...), groupNull: rapid.Bool().Draw(t, "groupnull"), filled: filled,
-		optForm: rapid.IntRange(0, 3).Draw(t, "optform")}
+		optForm: rapid.IntRange(0, 3).Draw(t, "optform"), decoyNull: rapid.IntRange(0, 5).Draw(t, "decoynull") == 0}
 }
 
 func withIDLast(tab hx.Table) hx.Table {
@@ -236,7 +237,10 @@ func (g groupCase) confFns() []groupby.ConfigFunc {
 		cols = append(cols, groupby.Columns(g.keys...))
 	}
 	// Null(false) is the default: pass it explicitly only sometimes
-	if g.groupNull || g.optForm >= 2 {
+	if g.groupNull || g.optForm >= 2 || g.decoyNull {
+		if g.decoyNull {
+			null = append(null, groupby.Null(!g.groupNull)) // an earlier Null option that the later one overrides
+		}
 		null = append(null, groupby.Null(g.groupNull))
 	}
 	// the options are independent: any order
@@ -365,6 +369,13 @@ func TestC04(t *testing.T) {
 		got, err := hx.Observe(res)
 		if err != nil {
 			t.Fatalf("observe aggregate: %v\n%s", err, desc())
+		}
+		// a later Aggregate of the same Grouper, with other aggregations, leaves the frame this one returned as it was
+		_ = hx.Safely(func() {
+			_ = grouper.Aggregate(qframe.Aggregation{Fn: "count", Column: "id", As: "zz-later"}, qframe.Aggregation{Fn: "max", Column: "id", As: "zz-later2"})
+		})
+		if again, err := hx.Observe(res); err != nil || hx.Diff(got, again) != "" {
+			t.Fatalf("the Aggregate result changed when the same Grouper aggregated again: %v %s\n%s", err, hx.Diff(got, again), desc())
 		}
 		// expected layout
 		var wantNames []string
